@@ -4,7 +4,10 @@ use std::cell::RefCell;
 use std::rc::Rc;
 use std::sync::Arc;
 
+#[cfg(not(fastrace_verif))]
 use fastant::Instant;
+#[cfg(fastrace_verif)]
+use crate::verif::clock::Instant;
 
 use crate::local::local_span_stack::LOCAL_SPAN_STACK;
 use crate::local::local_span_stack::LocalSpanStack;
